@@ -15,7 +15,9 @@ import multiprocessing as mp
 import os
 import sys
 
-from harness import framework, tlc, c06rv
+import random
+
+from harness import framework, tlc, c06rv, c06x86
 
 
 def rv_model(ctx, quick):
@@ -115,6 +117,101 @@ def run_riscv(ctx):
         rv_traces(ctx, xlen, 160 if quick else 6000, 6 if quick else 8)
 
 
+# ------------------------------------------------------------------------------------------------------------
+# x86-64 / IA-32
+def x86_model(ctx, quick):
+    res = tlc.run("X86MC", "X86MC.cfg" if quick else "X86MC_thorough.cfg", tag="c06x86mc", timeout=6000)
+    ctx.add_tlc(res, "M:X86MC")
+    res = tlc.run("X86MC", "X86MC_dev.cfg", expect_violation=True, tag="c06x86dev", timeout=3000)
+    if not res.violation or "Flags8" not in res.violation:
+        raise tlc.MachineryError("self-test: the seeded overflow-formula fault did not violate Flags8: %s" % res.violation)
+    ctx.note("x86_selftest_fault_detected_by_model", res.violation)
+
+
+def x86_forms(ctx):
+    """G: TLC enumerates the forms; their bytes come from the vendored llvm-mc table"""
+    res = tlc.run("X86Gen", "X86Gen.cfg", tag="c06x86gen", timeout=6000)
+    ctx.add_tlc(res, "G:X86Gen.cfg")
+    enc = c06x86.load_enc()
+    forms = {}
+    missing = []
+    for rec in res.printed:
+        forms[c06x86.form_key(rec)] = rec
+        if rec["f"]["mn"] != "jcc" and rec["asm"] not in enc["enc"] and rec["asm"] not in enc["rejected"]:
+            missing.append(rec["asm"])
+    if missing:
+        raise tlc.MachineryError("corpus/x86enc is stale: %d forms of specs/X86Gen.tla have no bytes (e.g. %s); rebuild it "
+                                 "with corpus/x86enc/build.py" % (len(missing), missing[:3]))
+    ctx.note("x86_forms_enumerated", len(forms))
+    ctx.note("x86_forms_rejected_by_llvm_mc", enc["rejected"])
+    return forms, enc
+
+
+def x86_batch(ctx, vectors, cpus, source):
+    """amoco on every vector, X86Trace on everything"""
+    if not vectors:
+        return
+    parts = tlc.shard(list(vectors), 4 * tlc.NCPU)
+    with mp.Pool(tlc.NCPU) as pool:
+        ams = [a for part in pool.map(c06x86.amoco_chunk, [(p, ("x64", "x86")) for p in parts]) for a in part]
+    traces = [c06x86.to_trace(i + 1, v, c, a) for i, (v, c, a) in enumerate(zip(vectors, cpus, ams))]
+    verdicts = c06x86.validate(ctx, traces, source[:1])
+    st = c06x86.report(ctx, vectors, traces, verdicts, source)
+    ctx.trace(len(traces))
+    ctx.case(n=st["compared"])
+    for k, v in st.items():
+        if isinstance(v, dict):
+            for kk, vv in v.items():
+                ctx.count("x86_%s_%s_%s" % (source, k, kk), vv)
+        else:
+            ctx.count("x86_%s_%s" % (source, k), v)
+    for v, tr in zip(vectors, traces):
+        if verdicts[tr["t"]]["skip"] == "" and all(not a["bad"] for a in verdicts[tr["t"]]["am"]) and len(tr["ams"]) > 0:
+            ctx.sample({"source": "x86 " + source, "form": v["k"], "bytes": v["hex"], "flags_before": v["fl"],
+                        "cpu_flags_after": tr["cpu"]["fl"], "rip_delta": tr["cpu"]["rip"], "modes": [a["mode"] for a in tr["ams"]],
+                        "undefined_flags": verdicts[tr["t"]].get("und", []), "amoco_agrees_with_cpu": True}, cap=12)
+            break
+
+
+def run_x86(ctx):
+    quick = ctx.tier == "quick"
+    x86_model(ctx, quick)
+    forms, enc = x86_forms(ctx)
+    rng = random.Random(ctx.seed * 9176 + 11)
+    # (i) + (ii) on the vendored processor executions
+    meta, lines = c06x86.load_corpus()
+    ctx.note("x86_corpus", {"cpu": meta.get("cpu"), "vectors": len(lines)})
+    heavy = lambda d: d["k"].split(" ")[0] in ("mul", "imul", "div", "idiv")
+    if quick:
+        light = [d for d in lines if not heavy(d)]
+        pick = rng.sample(light, min(1700, len(light))) + rng.sample([d for d in lines if heavy(d)], 120)
+    else:
+        pick = lines
+    vc = [x for x in (c06x86.corpus_vector(d, forms, enc) for d in pick) if x]
+    if len(vc) < len(pick):
+        raise tlc.MachineryError("corpus/x86cpu is stale: %d of %d sampled vectors use a form specs/X86Gen.tla does not "
+                                 "enumerate; rebuild it with corpus/x86cpu/build.py" % (len(pick) - len(vc), len(pick)))
+    x86_batch(ctx, [v for v, _ in vc], [c for _, c in vc], "corpus")
+    # fresh vectors on the host processor, when there is one
+    if c06x86.have_runner():
+        recs = sorted(forms.values(), key=c06x86.form_key)
+        n = 700 if quick else 40000
+        vs = []
+        while len(vs) < n:
+            rec = rng.choice(recs)
+            if rec["f"]["mn"] in ("mul", "imul", "div", "idiv") and rng.random() < 0.6:
+                continue
+            v = c06x86.concretise(rec, rng, enc)
+            if v:
+                vs.append(v)
+        cpus = c06x86.native_parallel(vs, 4)
+        keep = [(v, c) for v, c in zip(vs, cpus) if c is not None and (c["sig"] == 0 or 0 < c["sig"] < 64)]
+        ctx.note("x86_host_cpu_used", True)
+        x86_batch(ctx, [v for v, _ in keep], [c for _, c in keep], "host")
+    else:
+        ctx.note("x86_host_cpu_used", False)
+
+
 def run(ctx):
     ctx.rule = ("RISC-V: one case = one instruction word applied to one fully concrete state (32 registers, pc, memory) "
                 "and compared on all registers, pc and all memory bytes with the TLA+ reference interpreter specs/RVIsa.tla; "
@@ -126,7 +223,14 @@ def run(ctx):
                "accesses do not raise; accesses that wrap around the end of the address space are not generated")
     ctx.assume("RISC-V: a valid base instruction that amoco does not decode is reported as DRIFT (the statement speaks about "
                "decoded instructions)")
-    run_riscv(ctx)
+    ctx.assume("x86: a value amoco reports as unknown (top / symbolic) satisfies the clause; flags the architecture leaves "
+               "undefined, BSF/BSR destinations for a zero source and 16-bit SHLD/SHRD with a count above 16 are not compared")
+    ctx.assume("x86: divide errors are compared between specification and processor only (amoco does not model exceptions)")
+    part = os.environ.get("C06_PART", "")
+    if part in ("", "rv"):
+        run_riscv(ctx)
+    if part in ("", "x86"):
+        run_x86(ctx)
     ctx.exhaustive = False
 
 
